@@ -284,6 +284,12 @@ SOURCES = {
     "pick_ba": "def pick(b: bool, a: bool) -> bool:\n\treturn a",
     "low_2": "def low(v: Qint[2]) -> bool:\n\treturn v[0]",
     "low_4": "def low(v: Qint[4]) -> bool:\n\treturn v[0]",
+    # EQUAL constants of different types (1 == 1.0 == True): anything memoised by the constant's value confuses them
+    "k_int": "def kk(a: Qint[2]) -> Qint[2]:\n\treturn a + 1",
+    "k_fix": "def kk(a: Qfixed[2, 2]) -> Qfixed[2, 2]:\n\treturn a + 1.0",
+    "k_bool": "def kb(a: bool, b: Qint[2]) -> bool:\n\treturn (a == True) and b == 1",
+    "k_fix2": "def kf(a: Qfixed[2, 2]) -> bool:\n\treturn a == 2.0 or a == 0.5",
+    "k_int2": "def ki(a: Qint[4]) -> Qint[4]:\n\treturn a + 2",
     # two user types with the same __name__ and different widths (passed with types=[...])
     "word3": "def lw(w: Word) -> bool:\n\treturn w[0] and not w[2]",
     "word5": "def lw(w: Word) -> bool:\n\treturn w[0] and not w[4]",
@@ -514,7 +520,11 @@ def histories(tier, seed):
                  [("o_l2", ("compile", "low_2", "default")), ("o_l4", ("compile", "low_4", "default")), (None, ("export", "o_l4", "qasm")), (None, ("truth_table", "o_l2"))],
                  [("o_w3", ("compile", "word3", "default")), ("o_w5", ("compile", "word5", "default")), (None, ("export", "o_w5", "qasm")), (None, ("truth_table", "o_w3"))],
                  [("o_w5f", ("compile", "word5", "fast")), ("o_w3f", ("compile", "word3", "fast")), ("o_pbaf", ("compile", "pick_ba", "fast")), ("o_pabf", ("compile", "pick_ab", "fast")),
-                  (None, ("truth_table", "o_pabf")), (None, ("export", "o_w3f", "qasm"))]][i % 4]
+                  (None, ("truth_table", "o_pabf")), (None, ("export", "o_w3f", "qasm"))],
+                 [("o_ki", ("compile", "k_int", "default")), ("o_kf", ("compile", "k_fix", "default")), ("o_kb", ("compile", "k_bool", "default")), (None, ("truth_table", "o_kf")),
+                  (None, ("truth_table", "o_kb")), (None, ("export", "o_ki", "qasm"))],
+                 [("o_kb2", ("compile", "k_bool", "fast")), ("o_ki2", ("compile", "k_int2", "default")), ("o_kf2", ("compile", "k_fix2", "default")), (None, ("truth_table", "o_kf2")),
+                  (None, ("truth_table", "o_ki2")), (None, ("export", "o_kf2", "qasm"))]][i % 6]
         for t_, op_ in clash:
             if t_:
                 clash_creators[t_] = op_
